@@ -260,6 +260,13 @@ theorem second_terminate_refused (st : State) (id : Nat) (hid : id ∈ st.term) 
     step submgr st (.delete id) = (st, .busy) ∧ step submgr st (.tpark id) = (st, .busy) := by
   simp [step, submgr, submgrAccepts, tpark, hid]
 
+/-- An AssignAddress for a session that is being torn down is refused and changes nothing (fix 9d53e2c: the address
+    is handed back) — so the window cannot add a byIP entry that the second phase, which deletes byIP by value of
+    the session's address at that time, would leave behind. -/
+theorem assign_refused_in_window (st : State) (id a : Nat) (hid : id ∈ st.term) :
+    step submgr st (.setKey id true a) = (st, .gone) := by
+  simp [step, submgr, submgrAccepts, hid]
+
 /-- Release frame of the second phase, primary map (no hypothesis on the history, any state): it changes no other
     session's record and removes the session. -/
 theorem terminate_second_phase_frame_prim (st : State) (k : Nat) (hk : k ∈ st.term) :
